@@ -159,9 +159,17 @@ pub fn run_feed(out: &mut dyn Write, seed: u64, thorough: bool, n_hist: usize) {
 /// C09: every privileged message x every kind of sender, before and after the role moved.
 pub fn run_auth(out: &mut dyn Write, seed: u64, _thorough: bool, n_hist: usize) {
     let mut rng = Rng::new(seed);
-    let senders: Vec<u32> = vec![ID_OWNER, NEWOWNER, STRANGER, TRADERS[0], ID_ENGINE, ID_IFUND, ID_VAMM0, ID_FEEPOOL, LIQUIDATOR];
+    let senders: Vec<u32> = vec![ID_OWNER, NEWOWNER, STRANGER, TRADERS[0], TRADERS[1], TRADERS[2], TRADERS[3], ID_ENGINE, ID_IFUND, ID_VAMM0, ID_FEEPOOL, LIQUIDATOR];
+    // who holds (pauser, engine owner, vAMM owner, fund owner, pool owner, feed owner) after the transfer step
+    let modes: [(&str, [u32; 6]); 5] = [
+        ("False", [ID_OWNER; 6]),
+        ("True", [NEWOWNER; 6]),
+        ("split", [NEWOWNER, TRADERS[3], TRADERS[2], LIQUIDATOR, STRANGER, TRADERS[1]]),
+        ("pauser-only", [NEWOWNER, ID_OWNER, ID_OWNER, ID_OWNER, ID_OWNER, ID_OWNER]),
+        ("owner-only", [ID_OWNER, NEWOWNER, ID_OWNER, ID_OWNER, ID_OWNER, ID_OWNER]),
+    ];
     for h in 0..n_hist {
-        for transferred in [false, true] {
+        for (transferred, roles) in modes.iter() {
             let real_feed = h % 2 == 0;
             let d = random_deploy(&mut rng, Some(h % 3 == 0), real_feed);
             let mut w = World::new(&d, &accounts());
@@ -172,15 +180,13 @@ pub fn run_auth(out: &mut dyn Write, seed: u64, _thorough: bool, n_hist: usize) 
             // a position, so that privileged calls act on a non-trivial state
             let op = mk_open(&w, TRADERS[0], ID_VAMM0, Side::Buy, u * 10, u * 2, 0);
             tr.step(&mut w, &op);
-            if transferred {
-                // move every role to NEWOWNER (pauser, engine owner, vAMM owner, fund owner, pool owner, feed owner)
-                tr.step(&mut w, &Op::Eng { sender: ID_OWNER, funds: 0, m: EMsg::UpdPauser(NEWOWNER) });
-                tr.step(&mut w, &Op::Eng { sender: ID_OWNER, funds: 0, m: EMsg::UpdCfg { owner: Some(NEWOWNER), ifund: None, fpool: None, init: None, maint: None, plr: None, liqfee: None } });
-                tr.step(&mut w, &Op::Vamm { sender: ID_OWNER, v: ID_VAMM0, m: VMsg::UpdOwner(NEWOWNER) });
-                tr.step(&mut w, &Op::If { sender: ID_OWNER, m: IMsg::UpdOwner(NEWOWNER) });
-                tr.step(&mut w, &Op::Fp { sender: ID_OWNER, m: FMsg::UpdOwner(NEWOWNER) });
-                tr.step(&mut w, &Op::Feed { sender: ID_OWNER, m: PMsg::UpdOwner(NEWOWNER) });
-            }
+            // move the roles (pauser, engine owner, vAMM owner, fund owner, pool owner, feed owner)
+            if roles[0] != ID_OWNER { tr.step(&mut w, &Op::Eng { sender: ID_OWNER, funds: 0, m: EMsg::UpdPauser(roles[0]) }); }
+            if roles[1] != ID_OWNER { tr.step(&mut w, &Op::Eng { sender: ID_OWNER, funds: 0, m: EMsg::UpdCfg { owner: Some(roles[1]), ifund: None, fpool: None, init: None, maint: None, plr: None, liqfee: None } }); }
+            if roles[2] != ID_OWNER { tr.step(&mut w, &Op::Vamm { sender: ID_OWNER, v: ID_VAMM0, m: VMsg::UpdOwner(roles[2]) }); }
+            if roles[3] != ID_OWNER { tr.step(&mut w, &Op::If { sender: ID_OWNER, m: IMsg::UpdOwner(roles[3]) }); }
+            if roles[4] != ID_OWNER { tr.step(&mut w, &Op::Fp { sender: ID_OWNER, m: FMsg::UpdOwner(roles[4]) }); }
+            if roles[5] != ID_OWNER { tr.step(&mut w, &Op::Feed { sender: ID_OWNER, m: PMsg::UpdOwner(roles[5]) }); }
             let now = w.app.block_info().time.seconds();
             for s in senders.iter() {
                 let s = *s;
@@ -214,14 +220,13 @@ pub fn run_auth(out: &mut dyn Write, seed: u64, _thorough: bool, n_hist: usize) 
                     let ok = tr.step(&mut w, op);
                     // undo a successful role move / shutdown so the next sender meets the same state
                     if ok {
-                        let holder = if transferred { NEWOWNER } else { ID_OWNER };
                         match op {
-                            Op::Vamm { m: VMsg::UpdOwner(_), .. } => { tr.step(&mut w, &Op::Vamm { sender: s, v: ID_VAMM0, m: VMsg::UpdOwner(holder) }); }
-                            Op::Eng { m: EMsg::UpdPauser(_), .. } => { tr.step(&mut w, &Op::Eng { sender: s, funds: 0, m: EMsg::UpdPauser(holder) }); }
-                            Op::If { m: IMsg::UpdOwner(_), .. } => { tr.step(&mut w, &Op::If { sender: s, m: IMsg::UpdOwner(holder) }); }
-                            Op::Fp { m: FMsg::UpdOwner(_), .. } => { tr.step(&mut w, &Op::Fp { sender: s, m: FMsg::UpdOwner(holder) }); }
-                            Op::Feed { m: PMsg::UpdOwner(_), .. } => { tr.step(&mut w, &Op::Feed { sender: s, m: PMsg::UpdOwner(holder) }); }
-                            Op::If { m: IMsg::Shutdown, .. } => { tr.step(&mut w, &Op::Vamm { sender: holder, v: ID_VAMM0, m: VMsg::SetOpen(true) }); }
+                            Op::Vamm { m: VMsg::UpdOwner(_), .. } => { tr.step(&mut w, &Op::Vamm { sender: s, v: ID_VAMM0, m: VMsg::UpdOwner(roles[2]) }); }
+                            Op::Eng { m: EMsg::UpdPauser(_), .. } => { tr.step(&mut w, &Op::Eng { sender: s, funds: 0, m: EMsg::UpdPauser(roles[0]) }); }
+                            Op::If { m: IMsg::UpdOwner(_), .. } => { tr.step(&mut w, &Op::If { sender: s, m: IMsg::UpdOwner(roles[3]) }); }
+                            Op::Fp { m: FMsg::UpdOwner(_), .. } => { tr.step(&mut w, &Op::Fp { sender: s, m: FMsg::UpdOwner(roles[4]) }); }
+                            Op::Feed { m: PMsg::UpdOwner(_), .. } => { tr.step(&mut w, &Op::Feed { sender: s, m: PMsg::UpdOwner(roles[5]) }); }
+                            Op::If { m: IMsg::Shutdown, .. } => { tr.step(&mut w, &Op::Vamm { sender: roles[2], v: ID_VAMM0, m: VMsg::SetOpen(true) }); }
                             _ => {}
                         }
                     }
@@ -409,8 +414,24 @@ pub fn run_twin(out: &mut dyn Write, seed: u64, thorough: bool, n_hist: usize) {
                 // both deployments get the same message; the native one attaches what the cw20 one pulls
                 let (opc, opn): (Op, Op) = match kind {
                     0..=6 => {
-                        let side = if rng.chance(1, 2) { Side::Buy } else { Side::Sell };
-                        let pull = open_funds_cw20_rule(&wc, v, t, &side, amt, lev);
+                        let mut side = if rng.chance(1, 2) { Side::Buy } else { Side::Sell };
+                        let (mut v, mut t, mut amt) = (v, t, amt);
+                        // a third of the opens are reversals built so that the re-opened remainder is small
+                        // against the released equity (the refund covers the new margin)
+                        let ps = with_position(&wc);
+                        if kind >= 5 && !ps.is_empty() {
+                            let (pv, pt) = *rng.pick(&ps);
+                            if let (Some(p), Some(pn)) = (wc.position(pv, pt), spot_pnl(&wc, pv, pt)) {
+                                v = pv; t = pt;
+                                side = if p.direction == mv::Direction::AddToAmm { Side::Sell } else { Side::Buy };
+                                let rest = match rng.below(4) { 0 => lev / u + 1, 1 => p.margin.u128() * lev / u / 4 + 1, 2 => p.margin.u128() * lev / u / 2 + 7, _ => p.margin.u128() * lev / u + rng.below(1000) as u128 };
+                                amt = (pn.position_notional.u128() + rest) * u / lev + 1;
+                            }
+                        }
+                        let (pull, detail) = open_funds_cw20_detail(&wc, v, t, &side, amt, lev);
+                        if let Some((need, released, fees)) = detail {
+                            writeln!(trn.out, "A twin_need={} twin_released={} twin_fees={}", need, released, fees).unwrap();
+                        }
                         (Op::Eng { sender: t, funds: 0, m: EMsg::Open { vamm: v, side: side.clone(), margin: amt, lev, limit: 0 } },
                          Op::Eng { sender: t, funds: pull, m: EMsg::Open { vamm: v, side, margin: amt, lev, limit: 0 } })
                     }
